@@ -229,6 +229,44 @@ theorem WF.exists_ring {c : BCfg} (hw : WF c) :
   match ring, hw with
   | [f0, f1, f2, f3, f4], _ => exact ⟨L, f0, f1, f2, f3, f4, rfl⟩
 
+/-- slot `i` of the ring after a shift by `k` weeks: the old slot `i + k`, or the old latest
+    factors when that is beyond the ring -/
+def shifted (f0 f1 f2 f3 f4 : Factors) (k i : Nat) : Factors :=
+  ([f0, f1, f2, f3, f4][i + k]?).getD f4
+
+/-- `update` on an explicit 5-slot ring: the week becomes `W`, slots 0–3 are the old ring shifted by
+    `W − lastUpdateWeek` (filled up with the old latest factors), slot 4 the new factors if any -/
+theorem update_spec5 {L W : Nat} {f0 f1 f2 f3 f4 : Factors} {new : Option Factors} {c' : BCfg}
+    (h : (BCfg.mk L [f0, f1, f2, f3, f4]).update W new = some c') :
+    L ≤ W ∧ c' = ⟨W, [shifted f0 f1 f2 f3 f4 (W - L) 0, shifted f0 f1 f2 f3 f4 (W - L) 1,
+                      shifted f0 f1 f2 f3 f4 (W - L) 2, shifted f0 f1 f2 f3 f4 (W - L) 3,
+                      new.getD f4]⟩ := by
+  simp only [BCfg.update, RING, Option.bind_eq_bind, Option.bind_eq_some_iff, req_eq_some,
+    Option.pure_def] at h
+  obtain ⟨_, hle, h⟩ := h
+  refine ⟨hle, ?_⟩
+  obtain ⟨k, rfl⟩ := Nat.exists_eq_add_of_le hle
+  rw [Nat.add_sub_cancel_left] at h ⊢
+  rcases k with _ | _ | _ | _ | _ | k
+  · cases new <;> simp [shifted] at h ⊢ <;> exact h.symm
+  · simp [shifted, BCfg.latest, RING] at h ⊢; exact h.symm
+  · simp [shifted, BCfg.latest, RING] at h ⊢; exact h.symm
+  · simp [shifted, BCfg.latest, RING] at h ⊢; exact h.symm
+  · simp [shifted, BCfg.latest, RING] at h ⊢; exact h.symm
+  · simp [shifted, BCfg.latest, RING] at h ⊢; exact h.symm
+
+theorem shifted_ge {f0 f1 f2 f3 f4 : Factors} {k i : Nat} (h : 4 ≤ i + k) :
+    shifted f0 f1 f2 f3 f4 k i = f4 := by
+  unfold shifted
+  obtain ⟨m, hm⟩ := Nat.exists_eq_add_of_le h
+  rw [hm]
+  cases m with
+  | zero => rfl
+  | succ m =>
+    have : [f0, f1, f2, f3, f4][4 + (m + 1)]? = none :=
+      List.getElem?_eq_none (by simp only [List.length_cons, List.length_nil]; omega)
+    rw [this]; rfl
+
 theorem BCfg.new_wf (W : Nat) (f : Factors) : WF (BCfg.new W f) := by
   simp [WF, BCfg.new, RING]
 
@@ -236,39 +274,46 @@ theorem BCfg.new_latest (W : Nat) (f : Factors) : (BCfg.new W f).latest = f := r
 
 theorem BCfg.new_lastUpdateWeek (W : Nat) (f : Factors) : (BCfg.new W f).lastUpdateWeek = W := rfl
 
-/-- what `update` computes, with the shift `d` made explicit -/
-theorem BCfg.update_spec {c c' : BCfg} {W : Nat} {new : Option Factors}
-    (h : c.update W new = some c') :
-    c.lastUpdateWeek ≤ W ∧
-    ((W = c.lastUpdateWeek ∧ c' = { c with ring := match new with
-                                                    | some f => c.ring.set 4 f
-                                                    | none => c.ring }) ∨
-     (c.lastUpdateWeek < W ∧
-      c' = ⟨W, c.ring.drop (min (W - c.lastUpdateWeek) 5) ++
-               List.replicate (min (W - c.lastUpdateWeek) 5 - 1) c.latest ++
-               [new.getD c.latest]⟩)) := by
-  simp only [BCfg.update, RING, Option.bind_eq_bind, Option.bind_eq_some_iff, req_eq_some,
-    Option.pure_def] at h
-  obtain ⟨_, hle, h⟩ := h
-  refine ⟨hle, ?_⟩
-  by_cases hd : min (W - c.lastUpdateWeek) 5 = 0
-  · rw [if_pos hd] at h
-    left
-    refine ⟨by omega, ?_⟩
-    cases new with
-    | some f => simp only [Option.some.injEq] at h; exact h.symm
-    | none => simp only [Option.some.injEq] at h; exact h.symm
-  · rw [if_neg hd, Option.some.injEq] at h
-    right
-    exact ⟨by omega, h.symm⟩
+/-- `update` keeps the ring at 5 slots and moves `last_update_week` to the current week -/
+theorem BCfg.update_wf {c c' : BCfg} {W : Nat} {new : Option Factors} (hw : WF c)
+    (h : c.update W new = some c') : WF c' ∧ c'.lastUpdateWeek = W := by
+  obtain ⟨L, f0, f1, f2, f3, f4, rfl⟩ := hw.exists_ring
+  obtain ⟨_, rfl⟩ := update_spec5 h
+  exact ⟨rfl, rfl⟩
 
-/-- `get_factors_for_week` succeeds exactly for the four weeks before `last_update_week` of a
-    well-formed config -/
+theorem BCfg.update_le {c c' : BCfg} {W : Nat} {new : Option Factors}
+    (h : c.update W new = some c') : c.lastUpdateWeek ≤ W := by
+  simp only [BCfg.update, RING, Option.bind_eq_bind, Option.bind_eq_some_iff, req_eq_some] at h
+  obtain ⟨_, hle, _⟩ := h
+  exact hle
+
+theorem BCfg.update_lastUpdateWeek {c c' : BCfg} {W : Nat} {new : Option Factors} (hw : WF c)
+    (h : c.update W new = some c') : c'.lastUpdateWeek = max c.lastUpdateWeek W := by
+  rw [(BCfg.update_wf hw h).2]
+  have := BCfg.update_le h
+  omega
+
+/-- installing new factors makes them the latest ones -/
+theorem update_latest {c c' : BCfg} {W : Nat} {f : Factors} (hw : WF c)
+    (h : c.update W (some f) = some c') : c'.latest = f := by
+  obtain ⟨L, f0, f1, f2, f3, f4, rfl⟩ := hw.exists_ring
+  obtain ⟨_, rfl⟩ := update_spec5 h
+  rfl
+
+/-- an update without new factors keeps the latest ones -/
+theorem update_none_latest {c c' : BCfg} {W : Nat} (hw : WF c)
+    (h : c.update W none = some c') : c'.latest = c.latest := by
+  obtain ⟨L, f0, f1, f2, f3, f4, rfl⟩ := hw.exists_ring
+  obtain ⟨_, rfl⟩ := update_spec5 h
+  rfl
+
+/-- `get_factors_for_week` only answers for the four weeks before `last_update_week` -/
 theorem factorsForWeek_window {c : BCfg} {w : Nat} {f : Factors}
     (h : c.factorsForWeek w = some f) : w < c.lastUpdateWeek ∧ c.lastUpdateWeek < w + 5 := by
-  simp only [BCfg.factorsForWeek, RING, Option.bind_eq_bind, Option.bind_eq_some_iff,
+  simp only [BCfg.factorsForWeek, Option.bind_eq_bind, Option.bind_eq_some_iff,
     req_eq_some] at h
   obtain ⟨_, h1, _, h2, _⟩ := h
+  have hR : RING = 5 := rfl
   omega
 
 theorem factorsForWeek_eq {c : BCfg} {w : Nat} (h1 : w < c.lastUpdateWeek)
@@ -283,55 +328,101 @@ theorem factorsForWeek_new (W w : Nat) (f : Factors) (h1 : w < W) (h2 : W < w + 
   simp only [BCfg.new, RING]
   rw [List.getElem?_replicate, if_pos (by omega)]
 
-theorem BCfg.update_wf {c c' : BCfg} {W : Nat} {new : Option Factors} (hw : WF c)
-    (h : c.update W new = some c') : WF c' ∧ c'.lastUpdateWeek = W := by
-  obtain ⟨hle, h | h⟩ := BCfg.update_spec h
-  · obtain ⟨rfl, rfl⟩ := h
-    refine ⟨?_, rfl⟩
-    unfold WF at hw ⊢
-    cases new <;> simp [hw]
-  · obtain ⟨hlt, rfl⟩ := h
-    refine ⟨?_, rfl⟩
-    unfold WF at hw ⊢
-    simp only [List.length_append, List.length_drop, List.length_replicate, List.length_cons,
-      List.length_nil, hw]
-    omega
-
-theorem BCfg.update_lastUpdateWeek {c c' : BCfg} {W : Nat} {new : Option Factors} (hw : WF c)
-    (h : c.update W new = some c') : c'.lastUpdateWeek = max c.lastUpdateWeek W := by
-  rw [(BCfg.update_wf hw h).2]
-  have := (BCfg.update_spec h).1
-  omega
-
-theorem latest_eq {L : Nat} {f0 f1 f2 f3 f4 : Factors} :
-    (BCfg.mk L [f0, f1, f2, f3, f4]).latest = f4 := rfl
-
-/-- installing new factors makes them the latest ones -/
-theorem update_latest {c c' : BCfg} {W : Nat} {f : Factors} (hw : WF c)
-    (h : c.update W (some f) = some c') : c'.latest = f := by
+/-- a week that is still inside the 4-week window keeps the factors it had (its slot just moves),
+    whether or not new factors are installed for the current week -/
+theorem factorsForWeek_update_old {c c' : BCfg} {W w : Nat} {new : Option Factors} (hw : WF c)
+    (h : c.update W new = some c') (h1 : w < c.lastUpdateWeek) (h2 : W < w + 5) :
+    c'.factorsForWeek w = c.factorsForWeek w := by
   obtain ⟨L, f0, f1, f2, f3, f4, rfl⟩ := hw.exists_ring
-  obtain ⟨hle, h | h⟩ := BCfg.update_spec h
-  · obtain ⟨rfl, rfl⟩ := h; rfl
-  · obtain ⟨hlt, rfl⟩ := h
-    simp only [BCfg.latest, RING, List.getD_eq_getElem?_getD, Option.getD_some]
-    rw [List.getElem?_append_right (by simp; omega)]
-    simp only [List.length_append, List.length_drop, List.length_replicate, List.length_cons,
-      List.length_nil]
-    have : 5 - 1 - (0 + 1 + 1 + 1 + 1 + 1 - min (W - L) 5 + (min (W - L) 5 - 1)) = 0 := by omega
-    rw [this]; rfl
+  obtain ⟨hle, rfl⟩ := update_spec5 h
+  simp only at h1
+  rw [factorsForWeek_eq (by simp only; omega) (by simp only; omega),
+    factorsForWeek_eq (by simp only; omega) (by simp only; omega)]
+  simp only
+  obtain ⟨i, rfl⟩ := Nat.exists_eq_add_of_lt h1
+  obtain ⟨k, rfl⟩ := Nat.exists_eq_add_of_le hle
+  have hi : i < 4 := by omega
+  have hk : k < 4 := by omega
+  have e1 : w + i + 1 + k - (w + i + 1) = k := by omega
+  have e2 : w + i + 1 + k - w = i + 1 + k := by omega
+  have e3 : w + i + 1 - w = i + 1 := by omega
+  rw [e1, e2, e3]
+  interval_cases i <;> interval_cases k <;> first | rfl | omega
 
-/-- an update without new factors keeps the latest ones -/
-theorem update_none_latest {c c' : BCfg} {W : Nat} (hw : WF c)
-    (h : c.update W none = some c') : c'.latest = c.latest := by
+/-- weeks between the last update and now (no config change happened in them) get the factors
+    that were the latest ones -/
+theorem factorsForWeek_update_gap {c c' : BCfg} {W w : Nat} {new : Option Factors} (hw : WF c)
+    (h : c.update W new = some c') (h1 : c.lastUpdateWeek ≤ w) (h2 : w < W) (h3 : W < w + 5) :
+    c'.factorsForWeek w = some c.latest := by
   obtain ⟨L, f0, f1, f2, f3, f4, rfl⟩ := hw.exists_ring
-  obtain ⟨hle, h | h⟩ := BCfg.update_spec h
-  · obtain ⟨rfl, rfl⟩ := h; rfl
-  · obtain ⟨hlt, rfl⟩ := h
-    simp only [BCfg.latest, RING, List.getD_eq_getElem?_getD, Option.getD_none]
-    rw [List.getElem?_append_right (by simp; omega)]
-    simp only [List.length_append, List.length_drop, List.length_replicate, List.length_cons,
-      List.length_nil]
-    have : 5 - 1 - (0 + 1 + 1 + 1 + 1 + 1 - min (W - L) 5 + (min (W - L) 5 - 1)) = 0 := by omega
-    rw [this]; rfl
+  obtain ⟨hle, rfl⟩ := update_spec5 h
+  simp only at h1
+  rw [factorsForWeek_eq (by simp only; omega) (by simp only; omega)]
+  simp only
+  obtain ⟨i, rfl⟩ := Nat.exists_eq_add_of_le h1
+  obtain ⟨k, rfl⟩ := Nat.exists_eq_add_of_lt h2
+  have hk : k < 4 := by omega
+  have e1 : L + i + k + 1 - L = i + k + 1 := by omega
+  have e2 : L + i + k + 1 - (L + i) = k + 1 := by omega
+  rw [e1, e2]
+  interval_cases k
+  all_goals
+    show some (shifted _ _ _ _ _ _ _) = some f4
+    rw [shifted_ge (by omega)]
+/-! ## D. collection of undistributed boosted rewards -/
 
+/-- the loop of `collect_undistributed_boosted_rewards`: every week of the range has its remaining
+    pool emptied into the undistributed counter exactly once, nothing else changes -/
+theorem collectWeeks_spec (n : Nat) : ∀ (b : BSt) (u first : Nat),
+    (∀ w, first ≤ w → w < first + n →
+      (collectWeeks b u first n).1.remaining w = 0 ∧
+      (collectWeeks b u first n).1.collW w = b.collW w + b.remaining w) ∧
+    (∀ w, (w < first ∨ first + n ≤ w) →
+      (collectWeeks b u first n).1.remaining w = b.remaining w ∧
+      (collectWeeks b u first n).1.collW w = b.collW w) ∧
+    (collectWeeks b u first n).1.accum = b.accum ∧
+    (collectWeeks b u first n).1.farmSupplyWeek = b.farmSupplyWeek ∧
+    (collectWeeks b u first n).1.cfg = b.cfg ∧
+    (collectWeeks b u first n).1.cutW = b.cutW ∧
+    (collectWeeks b u first n).1.paidW = b.paidW ∧
+    (collectWeeks b u first n).2 =
+      u + ((List.range n).map (fun i => b.remaining (first + i))).sum := by
+  induction n with
+  | zero =>
+    intro b u first
+    refine ⟨fun w h1 h2 => by omega, fun w _ => ⟨rfl, rfl⟩, rfl, rfl, rfl, rfl, rfl, ?_⟩
+    simp [collectWeeks]
+  | succ n ih =>
+    intro b u first
+    obtain ⟨i1, i2, i3, i4, i5, i6, i7, i8⟩ :=
+      ih { b with remaining := upd b.remaining first 0
+                  collW := upd b.collW first (b.collW first + b.remaining first) }
+        (u + b.remaining first) (first + 1)
+    simp only [collectWeeks]
+    refine ⟨?_, ?_, i3, i4, i5, i6, i7, ?_⟩
+    · intro w h1 h2
+      by_cases hw : w = first
+      · subst hw
+        obtain ⟨j1, j2⟩ := i2 w (Or.inl (Nat.lt_succ_self w))
+        rw [j1, j2]
+        simp only [upd_same, and_self]
+      · obtain ⟨j1, j2⟩ := i1 w (by omega) (by omega)
+        rw [j1, j2]
+        simp only [upd_other _ _ hw, and_self]
+    · intro w h
+      have hw : w ≠ first := by omega
+      obtain ⟨j1, j2⟩ := i2 w (by omega)
+      rw [j1, j2]
+      simp only [upd_other _ _ hw, and_self]
+    · rw [i8, List.range_succ_eq_map, List.map_cons, List.sum_cons, List.map_map]
+      have : (List.range n).map (fun i => upd b.remaining first 0 (first + 1 + i)) =
+          (List.range n).map ((fun i => b.remaining (first + i)) ∘ Nat.succ) := by
+        apply List.map_congr_left
+        intro i _
+        have : first + 1 + i ≠ first := by omega
+        simp only [Function.comp, upd_other _ _ this]
+        congr 1; omega
+      rw [this]
+      simp only [Nat.add_zero]
+      omega
 end Mx.Farm
